@@ -203,6 +203,18 @@ func ruleC16Table(p *Prog, r *Result) {
 		}
 		return true, ""
 	})
+	// map x map: what is returned is the accumulated map itself — a map value even when nothing survived
+	// (a nil map would be kept by the caller's "v2 == nil" test as a typed nil and printed as null)
+	mmRet := selectPaths(pr.paths, func(pa *Path) bool {
+		return guardPol(pa, "kind", aP, "map") == 1 && guardPol(pa, "kind", bP, "map") == 1 && isSuccess(pa)
+	})
+	pr.all("map x map: the result is the accumulated map (a map even when empty)", mmRet, "returns the map the loop filled", func(pa *Path) (bool, string) {
+		res := pa.Results[0]
+		if res.Op == "fresh" && res.Name == "map" {
+			return true, ""
+		}
+		return false, "map x map returns " + truncate(res.String(), 60) + " instead of the accumulated map: an empty map on either side turns into null (typed nil map) in the common base"
+	})
 	// list x list: membership, per-element accumulation
 	ll := selectPaths(pr.paths, func(pa *Path) bool {
 		return guardPol(pa, "kind", aP, "list") == 1 && guardPol(pa, "kind", bP, "list") == 1
